@@ -221,6 +221,15 @@ Definition verdict (c : case) : list nat :=
        | None => true
        end) 15 ++
   tag (forallb (fun rn => result_eqb (fst rn) (c_result c) && (snd rn =? length (c_log c))) (c_alt c)) 16 ++
+  (* the hypothesis g_keys_fresh, checked on the real dict: one entry per task of the prepared workflow, all keys
+     different, 'results' is the key of the output task and of nothing else *)
+  tag (match c_dict c with
+       | Some d => (length d =? length (c_prep c)) && nodupp (dkeys d) &&
+                   forallb (fun kn => Bool.eqb (Pos.eqb (fst (fst kn)) results)
+                                               (match o_succ (snd kn) with [] => true | _ => false end))
+                           (combine d (c_prep c))
+       | None => true
+       end) 17 ++
   (* guards *)
   tag (g_static_nokey prep ids) 201 ++
   tag (g_static_nocall prep) 202 ++
